@@ -525,7 +525,12 @@ func (c *ConditionCalledByContract) Type() WitnessConditionType {
 // Match implements the WitnessCondition interface checking whether this condition
 // matches given context.
 func (c *ConditionCalledByContract) Match(ctx MatchContext) (bool, error) {
-	return util.Uint160(*c).Equals(ctx.GetCallingScriptHash()), nil
+	calling := ctx.GetCallingScriptHash()
+	if calling.Equals(util.Uint160{}) {
+		// Entry script has no calling contract (zero hash is a stub for it).
+		return false, nil
+	}
+	return util.Uint160(*c).Equals(calling), nil
 }
 
 // EncodeBinary implements the WitnessCondition interface allowing to serialize condition.
